@@ -77,3 +77,26 @@ Theorem C08_cancellation_is_permanent : forall P cfg c sched s,
   is_cancelled s c = true -> is_cancelled (fst (run P cfg s sched)) c = true.
 Proof. exact cancellation_is_permanent_run. Qed.
 Print Assumptions C08_cancellation_is_permanent.
+
+(* Run level, over EVERY schedule of every program: a publish made with a context that is already cancelled enters no
+   handler at all - synchronous or asynchronous, Once or not - whatever happens afterwards.  s is any reachable state
+   in which goroutine a is about to execute the publish (the context c is cancelled in s); the entry log of every
+   continuation is free of entries for that publish. *)
+Theorem C08_precancelled_publish_enters_nothing : forall P cfg s a t v c any rest s1 ls sched,
+  reachable P cfg s ->
+  assoc_get (code s) a = Some (IDo (APub t v c any) :: rest) -> is_cancelled s c = true ->
+  mstep P cfg s a = Some (s1, ls) ->
+  forall h, ~ In (next_pid s, h) (entered (fst (run P cfg s1 sched))).
+Proof. exact precancelled_publish_enters_nothing. Qed.
+Print Assumptions C08_precancelled_publish_enters_nothing.
+
+(* non-vacuity: sync, async and Once handlers, a context cancelled before the publish: nobody is entered; the same
+   publish with a live context enters all three *)
+Example C08_precancelled_example :
+  let P := {| p_bodies := [(0, {| b_acts := [] |})]; p_filters := []; p_routes := fun _ => 0; p_nshards := 32; p_pfault := fun _ => PfOk |} in
+  let sp o a := {| h_fn := 0; h_once := o; h_async := a; h_seq := false; h_ctx := true; h_filter := None; h_body := 0 |} in
+  let subs := [ASub 0 (sp false false); ASub 0 (sp false true); ASub 0 (sp true false)] in
+  let sched := repeat 0 60 ++ repeat 1 10 ++ repeat 0 10 in
+  entered (fst (run P cfg0 (init_state [subs ++ [ACancel 1; APub 0 7 (CtxId 1) false; AWait]]) sched)) = [] /\
+  length (entered (fst (run P cfg0 (init_state [subs ++ [APub 0 7 (CtxId 1) false; AWait]]) sched))) = 3.
+Proof. vm_compute. auto. Qed.
